@@ -96,6 +96,10 @@ func (r *validationResponseHandler) HandleValidationResponse(
 		if r.siep.CanStaleOnError(ctx.Freshness, ccResp) {
 			// RFC 9111 §4.2.4 Serving Stale Responses
 			// RFC 9111 §4.3.3 Handling Validation Responses (5xx errors)
+			StripNoCacheFields(
+				ctx.Stored.Data.Header,
+				ParseCCResponseDirectives(ctx.Stored.Data.Header),
+			)
 			SetAgeHeader(ctx.Stored.Data, r.clock, ctx.Freshness.Age)
 			CacheStatusStale.ApplyTo(ctx.Stored.Data.Header)
 			r.l.LogCacheStaleIfError(req, ctx.URLKey, ctx.ToMisc(ccResp))
